@@ -31,7 +31,13 @@ impl Scenario {
     /// "after" = after serving requests; "lateNN" = the same, but only once the tracker has been up for NN seconds
     /// (the property says "at any moment of its life": a supervision loop may treat late failures differently)
     fn is_after(&self) -> bool {
-        self.moment == "after" || self.moment.starts_with("late")
+        self.moment == "after" || self.moment == "afterheld" || self.moment.starts_with("late")
+    }
+    /// "afterheld" = after serving requests, while client connections that have been served are still open (idle
+    /// keep-alive / WebSocket connections, and one that keeps sending requests): what a worker does with its open
+    /// connections when it stops must not delay the tracker's exit (seeded C19c drained them first).
+    fn held(&self) -> bool {
+        self.moment == "afterheld"
     }
     fn late_s(&self) -> u64 {
         self.moment.strip_prefix("late").and_then(|x| x.parse().ok()).unwrap_or(0)
@@ -53,7 +59,7 @@ impl Scenario {
             ("udp", "signals", _) => "udp.signals.loop".to_string(),
             (t, "socket", "panic_task") => format!("{}.socket.connection", t),
             (t, "socket", "panic") if self.is_after() => format!("{}.socket.accept", t),
-            (t, "socket", "return_ok") if self.is_after() && t == "http" => format!("{}.socket.accept", t),
+            (t, "socket", "return_ok" | "return_err") if self.is_after() && t == "http" => format!("{}.socket.accept", t),
             (t, "socket", _) if self.is_after() && t == "ws" => format!("{}.socket.accept", t),
             (t, "socket", _) => format!("{}.socket.start", t),
             (t, "swarm", "panic") if self.is_after() => format!("{}.swarm.request", t),
@@ -70,6 +76,9 @@ impl Scenario {
         }
     }
 }
+
+static HELD_HTTP: Mutex<Vec<vhttp::live::Conn>> = Mutex::new(Vec::new());
+static HELD_WS: Mutex<Vec<vws::live::WsConn>> = Mutex::new(Vec::new());
 
 fn now_ms(t0: Instant) -> u64 {
     t0.elapsed().as_millis() as u64 + 1
@@ -249,6 +258,39 @@ fn child(args: &Args) -> ! {
             traffic(1);
             std::thread::sleep(Duration::from_millis(700));
         }
+        if sc.held() {
+            // one served, still open connection per source address (spread over the socket workers), kept until exit
+            if let Some(addr) = http_t {
+                for h in 0..8u8 {
+                    if let Ok(mut c) = vhttp::live::Conn::open(addr, Some(std::net::IpAddr::V4(std::net::Ipv4Addr::new(127, 0, 33, 1 + h)))) {
+                        let _ = c.request(&vhttp::live::announce_req(&[8u8; 20], 2000 + h as u16, "started", 1, None, "", ""), 2000);
+                        HELD_HTTP.lock().unwrap().push(c);
+                    }
+                }
+            }
+            if let Some(addr) = ws_t {
+                for h in 0..8u8 {
+                    if let Ok(mut c) = vws::live::WsConn::open(addr, Some(std::net::IpAddr::V4(std::net::Ipv4Addr::new(127, 0, 34, 1 + h)))) {
+                        let mut pid = [10u8; 20];
+                        pid[0] = h;
+                        let _ = c.send_text(&vws::live::announce_json(&[8u8; 20], &pid, Some("started"), Some(1), None, None));
+                        let _ = c.wait_message(2000);
+                        HELD_WS.lock().unwrap().push(c);
+                    }
+                }
+            }
+            // ... and one of them stays busy from another thread until the process exits
+            std::thread::spawn(move || loop {
+                if let Some(c) = HELD_HTTP.lock().unwrap().first_mut() {
+                    let _ = c.request(&vhttp::live::scrape_req(&[[8u8; 20]], ""), 500);
+                }
+                if let Some(c) = HELD_WS.lock().unwrap().first_mut() {
+                    let _ = c.send_text(&vws::live::scrape_json(Some(&[[8u8; 20]]), true));
+                    let _ = c.wait_message(500);
+                }
+                std::thread::sleep(Duration::from_millis(400));
+            });
+        }
         ARMED.store(true, Ordering::SeqCst);
     }
     // poke: traffic and signals until the probe fired (or 12 s)
@@ -332,6 +374,17 @@ fn scenarios(thorough: bool) -> Vec<Scenario> {
                 v.push(mk(tracker, "swarm", *i, "return_err", "first", *n));
                 v.push(mk(tracker, "swarm", *i, "panic", "first", *n));
             }
+        }
+        // with served client connections still open when the worker stops
+        v.push(mk(tracker, "socket", 0, "return_ok", "afterheld", 1));
+        v.push(mk(tracker, "socket", 1, "panic", "afterheld", 2));
+        if thorough {
+            v.push(mk(tracker, "socket", 0, "return_err", "afterheld", 1));
+            v.push(mk(tracker, "socket", 0, "panic", "afterheld", 1));
+            v.push(mk(tracker, "socket", 2, "return_ok", "afterheld", 3));
+            v.push(mk(tracker, "socket", 0, "panic_task", "afterheld", 2));
+            v.push(mk(tracker, "swarm", 0, "panic", "afterheld", 1));
+            v.push(mk(tracker, "swarm", 1, "panic", "afterheld", 2));
         }
         // late in the tracker's life
         v.push(mk(tracker, "socket", 0, "panic", "late17", 1));
